@@ -190,41 +190,44 @@ fn one_input(st: &mut Stats, s: &[u8], fam: &'static str) {
     }
 }
 
-const ALPHA: [u8; 11] = [b'+', b'-', b'0', b'1', b'9', b'.', b'e', b'E', b'x', 0, 0xFF];
+// every syntactic role, plus the neighbours of the digit range and bytes that are digits / numeric only
+// under a wider notion than ASCII ('/' ':' and Latin-1 superscript two, one half)
+const ALPHA: [u8; 15] = [b'+', b'-', b'0', b'1', b'9', b'.', b'e', b'E', b'x', 0, 0xFF, b'/', b':', 0xB2, 0xBD];
+const NA: usize = ALPHA.len();
 
 pub fn c19(a: &Args) -> (Stats, String) {
     let t = Timer::new();
     let n = if a.thorough { 7 } else { 6 };
     // TEXT(n): one job per 2-byte prefix (121) plus one for the short strings
-    let dummy: Vec<Job> = (0..122 + 2).map(|_| -> Job { Box::new(|_e: &mut fam::Emit| {}) }).collect();
+    let dummy: Vec<Job> = (0..NA * NA + 3).map(|_| -> Job { Box::new(|_e: &mut fam::Emit| {}) }).collect();
     let st = run_jobs(
         &dummy,
         |_s, _j, _c| {},
         |st, j| {
-            if j < 121 {
-                let pre = [ALPHA[j / 11], ALPHA[j % 11]];
+            if j < NA * NA {
+                let pre = [ALPHA[j / NA], ALPHA[j % NA]];
                 // all strings of length 2..=n with this prefix
                 let mut buf: Vec<u8> = Vec::with_capacity(n);
                 for len in 2..=n {
                     let rest = len - 2;
-                    let total = 11usize.pow(rest as u32);
+                    let total = NA.pow(rest as u32);
                     for k in 0..total {
                         buf.clear();
                         buf.extend_from_slice(&pre);
                         let mut r = k;
                         for _ in 0..rest {
-                            buf.push(ALPHA[r % 11]);
-                            r /= 11;
+                            buf.push(ALPHA[r % NA]);
+                            r /= NA;
                         }
                         one_input(st, &buf, "TEXT");
                     }
                 }
-            } else if j == 121 {
+            } else if j == NA * NA {
                 one_input(st, b"", "TEXT");
                 for &c in &ALPHA {
                     one_input(st, &[c], "TEXT");
                 }
-            } else if j == 122 {
+            } else if j == NA * NA + 1 {
                 // special literals: every case variant x sign x suffix, and near misses
                 for lit in ["nan", "inf", "infinity"] {
                     let l = lit.as_bytes();
@@ -278,7 +281,7 @@ pub fn c19(a: &Args) -> (Stats, String) {
     (
         st,
         format!(
-            "\"copies\":[{}],\"families\":[{{\"family\":\"TEXT({}) over 11 bytes + special literals + structured product, 7 copies x 2 formats\",\"wall_s\":{:.2}}}]",
+            "\"copies\":[{}],\"families\":[{{\"family\":\"TEXT({}) over 15 bytes + special literals + structured product, 7 copies x 2 formats\",\"wall_s\":{:.2}}}]",
             FE_PATHS.iter().map(|p| format!("{:?}", p)).collect::<Vec<_>>().join(","),
             n,
             t.secs()
